@@ -97,8 +97,19 @@ func (s *RedundantScope) handleVarassign(mkline *MkLine, ind *Indentation) {
 		effOp = opAssign
 	}
 
+	// The remembered value does not include the output of shell commands.
+	afterShell := false
+	for _, prev := range prevWrites {
+		switch prev.Op() {
+		case opAssignShell:
+			afterShell = true
+		case opAssign, opAssignEval:
+			afterShell = false
+		}
+	}
+
 	// TODO: Skip the whole redundancy check if the value is not known to be constant.
-	if effOp == opAssign && info.vari.Value() == value {
+	if effOp == opAssign && !afterShell && info.vari.Value() == value {
 		effOp = opAssignDefault
 	}
 
